@@ -172,8 +172,8 @@ class Ref:
         self.objs[f] = {"r": r, "l": l, "p": p, "crc": crc}
         exp["answered"] = (r, l, int(ObjectUpdateType.UPDATE), f)
         exp["tracked_now"] = (r, l)
-        if p and self.at(r, p) is None:
-            exp["orphan_parent"] = (r, p)
+        if p and self.at(r, p) is None and not (old is not None and (old["r"], old["l"], old["p"]) == (r, l, p)):
+            exp["orphan_parent"] = (r, p)     # (re)linked under an unknown parent in this step
         return exp
 
     def kill(self, r: int, locals_) -> Dict[str, Any]:
@@ -234,8 +234,9 @@ def _core(ev):
 class Harness:
     copyable = False
 
-    def __init__(self, nreg: int, profile: str = "full"):
+    def __init__(self, nreg: int, profile: str = "full", nl: int = NL):
         self.nreg = nreg
+        self.nl = nl              # local IDs offered per region (the oracle always inspects all NL)
         self.profile = profile
         self.kinds = PROFILES[profile]
 
@@ -263,13 +264,13 @@ class Harness:
         for r in range(self.nreg):
             if r > 0 and not m.touched[0]:
                 continue        # region symmetry
-            top = min(NL, m.hi[r] + 1)
+            top = min(self.nl, m.hi[r] + 1)
             if m.tracked[r]:
                 for f in range(NF):
                     for l in range(1, top + 1):
                         if m.at(r, l) not in (None, f):
                             continue                      # a live local ID is never given to a second full ID
-                        ptop = min(NL, max(m.hi[r], l) + 1)
+                        ptop = min(self.nl, max(m.hi[r], l) + 1)
                         for p in range(0, ptop + 1):
                             if p == l or m.would_cycle(r, f, l, p):
                                 continue                  # no parent cycle
@@ -298,7 +299,7 @@ class Harness:
                     if f not in m.objs and f not in m.limbo:
                         continue      # an update for an unknown object and an unknown region is dropped at once
                     for l in range(1, top + 1):
-                        ptop = min(NL, max(m.hi[r], l) + 1)
+                        ptop = min(self.nl, max(m.hi[r], l) + 1)
                         for p in range(0, ptop + 1):
                             if p != l:
                                 evs.append(("A", r, f, l, p, "late"))
@@ -726,9 +727,9 @@ def _minimise(h: Harness, history, clause: str, site: str):
 
 
 BOUNDS = {
-    # tier: [(profile, regions, depth, deviation bound)]
-    "quick": [("graph", 1, 4, 2), ("graph", 2, 4, 2), ("full", 1, 4, 2), ("full", 2, 3, 2)],
-    "thorough": [("graph", 1, 6, 3), ("graph", 2, 6, 3), ("full", 1, 5, 3), ("full", 2, 4, 3)],
+    # tier: [(profile, regions, locals per region, depth, deviation bound)]
+    "quick": [("graph", 1, 3, 4, 2), ("graph", 2, 2, 4, 2), ("full", 1, 3, 4, 2), ("full", 2, 2, 3, 2)],
+    "thorough": [("graph", 1, 3, 6, 3), ("graph", 2, 2, 6, 3), ("full", 1, 3, 5, 3), ("full", 2, 2, 4, 3)],
 }
 
 
@@ -755,27 +756,32 @@ def run(run: Run):
         "F1 only by ObjectUpdateCompressed",
     ]
     bounds = BOUNDS[run.tier]
-    if os.environ.get("C14_BOUNDS"):      # development aid: "regions:depth:dev,..." (never set by ./check users)
+    if os.environ.get("C14_BOUNDS"):      # development aid: "profile:regions:locals:depth:dev,..." (never set by ./check users)
         bounds = [(b.split(":")[0],) + tuple(int(x) for x in b.split(":")[1:])
                   for b in os.environ["C14_BOUNDS"].split(",")]
         run.cap("C14_BOUNDS override in effect")
-    for profile, nreg, depth, devb in bounds:
-        h = Harness(nreg, profile)
-        info = explore.bfs(run, h, depth=depth, dev_bound=devb, label=f"{profile}/regions={nreg} ")
+    for profile, nreg, nl, depth, devb in bounds:
+        h = Harness(nreg, profile, nl)
+        t_cpu = sum(os.times()[:4])
+        info = explore.bfs(run, h, depth=depth, dev_bound=devb, label=f"{profile}/regions={nreg}/locals={nl} ")
+        info = run.coverage_extra["searches"][-1]
+        info["cpu_s"] = round(sum(os.times()[:4]) - t_cpu, 1)
+        info["transitions_per_cpu_s"] = round(info["transitions"] / max(info["cpu_s"], 1e-9))
         info["transitions_per_s"] = round(info["transitions"] / max(info["wall_s"], 1e-9))
         for v in run.violations:
             if isinstance(v["witness"], dict) and "regions" not in v["witness"]:
                 v["witness"]["regions"] = nreg
                 v["witness"]["profile"] = profile
-    run.coverage_extra["bounds"] = [{"profile": _p, "regions": a, "depth": b, "deviation_bound": c} for _p, a, b, c in bounds]
+                v["witness"]["locals"] = nl
+    run.coverage_extra["bounds"] = [{"profile": _p, "regions": a, "locals": _n, "depth": b, "deviation_bound": c} for _p, a, _n, b, c in bounds]
     for v in run.violations:
         wit = v["witness"]
         try:
-            wit["history"] = _minimise(Harness(int(wit["regions"]), wit.get("profile", "full")), wit["history"], v["clause"], v["site"])
+            wit["history"] = _minimise(Harness(int(wit["regions"]), wit.get("profile", "full"), int(wit.get("locals", NL))), wit["history"], v["clause"], v["site"])
         except Exception as e:  # best effort
             run.notes.append(f"minimise failed for {v['clause']}@{v['site']}: {e!r}")
 
 
 def replay(witness):
-    h = Harness(int(witness.get("regions", 2)), witness.get("profile", "full"))
+    h = Harness(int(witness.get("regions", 2)), witness.get("profile", "full"), int(witness.get("locals", NL)))
     return explore.replay_history(h, witness["history"])
